@@ -1187,6 +1187,19 @@ struct Value {
             }
 
             case ValueType::Array: {
+                // The key of an array element is its index: decimal digits only, and small enough to be one.
+                constexpr SizeT max_digits = SizeT{9};
+                SizeT           offset     = 0;
+
+                while ((offset < length) && (offset < max_digits) && (key[offset] >= DigitUtils::DigitChar::Zero) &&
+                       (key[offset] <= DigitUtils::DigitChar::Nine)) {
+                    ++offset;
+                }
+
+                if ((offset == 0) || (offset != length)) {
+                    return nullptr;
+                }
+
                 SizeT index;
                 Digit::FastStringToNumber(index, key, length);
 
